@@ -221,6 +221,17 @@ def dispatch (fields : List String) : Result :=
         ++ (if alive != "alive" then ["fail:C19:server-died"] else [])
       { model := impl, oracle := if vsd.isEmpty then "ok" else ",".intercalate vsd, tags := "blocked" }
     | _, _ => { model := "?", oracle := "fail:C19:unparsable", tags := "blocked" }
+  | ["server.fwd", pm, _, kind, impl] =>
+    -- the real binary in forwarding mode against a mock forwarder and a decoy port: the verdict is
+    -- computed by the harness from what reached the two sockets and from the reply
+    let v := (impl.splitOn " ").headD "?"
+    { model := impl, oracle := if v == "ok" then "ok" else v, tags := s!"fwd/{pm}/{kind}/" ++ ((impl.splitOn " ").getD 1 "") }
+  | ["bin.same", tool, cls, _, impl] =>
+    -- the converter binaries against the library functions (glue check; the library is what the
+    -- other streams tie to the model)
+    let pid := if tool == "ztoz" then "C13" else "C14"
+    { model := "same", oracle := if impl == "same" then "ok" else s!"fail:{pid}:binary-{tool}-differs-from-library",
+      tags := s!"{tool}:{cls}" }
   | ["hosts.parse", hex, impl] => cmdHostsParse hex impl
   | ["hosts.roundtrip", d, impl] => cmdHostsRoundtrip d impl
   | ["hosts.tozone", d, impl] => cmdHostsToZone d impl
